@@ -3,6 +3,7 @@
 //! seams and process model as `lmsim`.
 
 mod py;
+mod pystream;
 mod pyview;
 
 #[global_allocator]
@@ -11,6 +12,7 @@ static GLOBAL: lmsim::seam::alloc::SimAlloc = lmsim::seam::alloc::SimAlloc;
 fn sim_of(prop: &str) -> &'static str {
     match prop {
         "C18" => "pyview",
+        "C14" | "C15" => "pystream",
         _ => {
             eprintln!("HARNESS: no Python-tier simulator serves property {}", prop);
             std::process::exit(2);
@@ -23,6 +25,10 @@ macro_rules! with_sim {
         match $name {
             "pyview" => {
                 type $s = pyview::PyViewSim;
+                $body
+            }
+            "pystream" => {
+                type $s = pystream::PyStreamSim;
                 $body
             }
             other => {
